@@ -124,10 +124,15 @@ def run(ctx):
                 "random k-way, byte-wise) x scenarios {plain, truncated sequence then complete message, duplicate first "
                 "fragment}; non-trivial = >= 3 fragments or an interrupted sequence; distinct by (bytes, chunk sizes)")
     lines, metas = [], []
-    for it in range(ctx.scale(60, 1200)):
-        cmd = big_commands(r)
+    # the host's own transmitter on boundary body lengths (every residue class that matters)
+    own = []
+    for blen in [248, 249, 250, 251, 300, 493, 494, 495, 497, 741, 742, 988]:
+        own.append(gen.big_request(r, blen - 12))        # WriteNVRAM: 12 bytes of header + fixed parameters
+    for it in range(len(own) + ctx.scale(60, 1200)):
+        cmd = own[it] if it < len(own) else big_commands(r)
         body = cmd.to_frame().hl_packet.serialize()[2:]
-        scenario = r.choice(["plain", "plain", "own-fragmenter", "truncated-then-complete", "restart"])
+        scenario = "own-fragmenter" if it < len(own) else \
+            r.choice(["plain", "plain", "own-fragmenter", "truncated-then-complete", "truncated-then-single", "restart"])
         if scenario == "own-fragmenter":
             frames = streams.fragments_wire(r, 0)[:0] or None
             whole = cmd.to_frame()
@@ -149,6 +154,19 @@ def run(ctx):
                 cutn = r.randrange(1, len(of))
                 small = gen.gen_cmd(type(cmd), r) if False else None
                 stream_frames = of[:cutn] + frames           # the interrupted message is never completed
+        elif scenario == "truncated-then-single":
+            # an interrupted sequence followed by an ordinary unfragmented (first+last) message
+            other = big_commands(r)
+            of = split_frames(r, other.to_frame().hl_packet.serialize()[2:])
+            small = gen.gen_cmd(r.choice([type(cmd)]), r) if False else gen.big_request(r, r.choice([0, 5, 40]))
+            if of:
+                cutn = r.randrange(1, len(of))
+                sbody = small.to_frame().hl_packet.serialize()[2:]
+                stream_frames = of[:cutn] + [streams.raw_frame(0xC0 | (r.randrange(4) << 2), sbody)]
+                frames = stream_frames[-1:]
+                cmd = small
+                expect = [cmd]
+                body = sbody
         elif scenario == "restart":
             stream_frames = frames[:1] + frames              # first fragment twice (retransmission after a reset)
         s = b"".join(stream_frames)
